@@ -7,6 +7,9 @@
 // LICENSE file in the root of the Project.
 
 #include "H5Group.hpp"
+
+#include <set>
+#include <vector>
 #include <nix/util/util.hpp>
 #include "H5Exception.hpp"
 #include "H5PList.hpp"
@@ -320,6 +323,36 @@ H5Group H5Group::createLink(const H5Group &target, const std::string &link_name)
 }
 
 
+// Takes a group that has just been detached from the file apart: every link inside it is deleted, and groups that
+// were linked from nowhere else (the containers and sub entities it owned) are taken apart first. HDF5 keeps a detached
+// object alive for as long as an id of it is open; without this, a stale handle to a deleted entity would keep
+// everything the entity linked to (referenced arrays, sources, metadata) alive after that was deleted as well.
+static void dissolveDetached(hid_t gid, std::set<haddr_t> &seen) {
+    H5G_info_t ginfo;
+    while (H5Gget_info(gid, &ginfo) >= 0 && ginfo.nlinks > 0) {
+        ssize_t len = H5Lget_name_by_idx(gid, ".", H5_INDEX_NAME, H5_ITER_NATIVE, 0, nullptr, 0, H5P_DEFAULT);
+        if (len < 0)
+            break;
+        std::vector<char> buf(static_cast<size_t>(len) + 1, 0);
+        if (H5Lget_name_by_idx(gid, ".", H5_INDEX_NAME, H5_ITER_NATIVE, 0, buf.data(), buf.size(), H5P_DEFAULT) < 0)
+            break;
+
+        H5O_info_t oinfo;
+        if (H5Oget_info_by_name(gid, buf.data(), &oinfo, H5P_DEFAULT) >= 0 &&
+            oinfo.type == H5O_TYPE_GROUP && oinfo.rc == 1 && seen.insert(oinfo.addr).second) {
+            hid_t child = H5Gopen2(gid, buf.data(), H5P_DEFAULT);
+            if (child >= 0) {
+                dissolveDetached(child, seen);
+                H5Gclose(child);
+            }
+        }
+
+        if (H5Ldelete(gid, buf.data(), H5P_DEFAULT) < 0)
+            break;
+    }
+}
+
+
 // TODO implement some kind of roll-back in order to avoid half removed links.
 bool H5Group::removeAllLinks(const std::string &name) {
     bool removed = false;
@@ -333,6 +366,9 @@ bool H5Group::removeAllLinks(const std::string &name) {
             deleteLink(gname);
             gname = group.name();
         }
+
+        std::set<haddr_t> seen;
+        dissolveDetached(group.h5id(), seen);
 
         removed = true;
     }
